@@ -188,6 +188,11 @@ pub enum Op {
         key: String,
         value: Val,
     },
+    /// declare a key without data (low-level insert of a DataKey into an existing dataset)
+    AddKey {
+        s: Ref,
+        key: String,
+    },
     Annotate {
         id: Option<String>,
         target: Sel,
@@ -233,6 +238,7 @@ impl Op {
             Op::AddResource { .. } => "add_resource",
             Op::AddDataset { .. } => "add_dataset",
             Op::InsertData { .. } => "insert_data",
+            Op::AddKey { .. } => "add_key",
             Op::Annotate { .. } => "annotate",
             Op::AnnotateBatch { .. } => "annotate_batch",
             Op::RemoveAnnotation { .. } => "remove_annotation",
